@@ -49,6 +49,11 @@ def type_of_loc(sx, cell, path):
 def havoc_value(sx, rec, old, ty, label):
     """Fresh symbolic value of the same shape as `old` (struct shapes are kept so that
     field-wise updates stay visible; everything else becomes one typed symbol)."""
+    if old[0] == 'adt' and isinstance(old[1], str) and old[1].startswith('verif::iter::'):
+        # a structured iterator (adapter chain) carried through the loop keeps its shape: the bases keep
+        # their identity (references to the cells of the underlying iterators stay references)
+        from . import iters
+        return iters.havoc(sx, rec, old, label)
     if old[0] == 'adt':
         vs = sx.tenv.variants(ty) if ty else None
         if vs is not None and len(vs) == 1:
@@ -425,8 +430,8 @@ def closure_loop(sx, st, fr, term, iter_val, clo, acc_init, mode, dest_ty=None):
     from . import iters
     md = _Mode(sx, mode, dest_ty, acc_init is not None)
     itv = _iter_value(sx, st, iter_val)
-    if iters.is_concrete(itv):
-        return concrete_loop(sx, st, fr, term, itv, clo, acc_init, md)
+    if iters.is_concrete(itv, sx, st):
+        return concrete_loop(sx, st, fr, term, iter_val if iter_val[0] == 'ref' else itv, clo, acc_init, md)
     for k, r in st.active_loops.items():
         if not r.get('suspended'):
             raise Unsupported('nested loop (closure-driven) at %s' % sx.where(fr, term))
